@@ -1,9 +1,9 @@
 from common import COMMON_TB
 
 CFG = {
-    "technique": "Lean 4 theorems about a byte-level model of snacl and of the manager's key layer, parametric in an abstract AEAD/KDF whose laws are hypotheses; differential run of the real snacl/waddrmgr code (every bit flip, every truncation, passphrase near-misses, all parameter-encoding lengths) against the model instantiated with a toy AEAD/KDF proved lawful",
-    "level_text": "The wallet's own logic (ciphertext layout and length check, use of the authenticator result, 88-byte parameter encoding, digest comparison, key selection/locking in Manager.Encrypt/Decrypt/Unlock) is proved for all inputs; secretbox/scrypt/sha256 strength enters as named hypotheses (structure fields), shown satisfiable by a toy instance.",
-    "level_note": "Partial by nature: unforgeability, key binding of secretbox and collision resistance of sha256∘scrypt are cryptographic assumptions (hypotheses of the theorems, exercised empirically on the real primitives by the differential run: every single-bit flip and every truncation length of real ciphertexts). Nonce uniqueness relies on crypto/rand; the model takes the nonce as a parameter.",
+    "technique": "Lean 4 theorems about a byte-level model of snacl and of the manager's key layer, parametric in an abstract AEAD/KDF whose laws are hypotheses; differential run of the real snacl/waddrmgr code (every bit flip, every truncation, passphrase near-misses, all parameter-encoding lengths, ChangePassphrase sequences, concurrent Encrypt callers: op encpar) against the model instantiated with a toy AEAD/KDF proved lawful; structural freshness oracle on every real nonce",
+    "level_text": "The wallet's own logic (ciphertext layout and length check, use of the authenticator result, 88-byte parameter encoding, digest comparison, key selection/locking in Manager.Encrypt/Decrypt/Unlock/ChangePassphrase) is proved for all inputs; pairwise distinct nonces give pairwise distinct ciphertexts for every interleaving of concurrent callers (C17_fresh_calls, C17_fresh_concurrent, C17_fresh_many; necessity: C17_nonce_reuse_collides). secretbox/scrypt/sha256 strength enters as named hypotheses (structure fields), shown satisfiable by a toy instance.",
+    "level_note": "Partial by nature: unforgeability, key binding of secretbox and collision resistance of sha256∘scrypt are cryptographic assumptions (hypotheses, exercised on the real primitives: every single-bit flip and truncation of real ciphertexts). Nonce uniqueness relies on crypto/rand; the model takes nonces as parameters, the Go side checks every real nonce: keys encrypt.nonce-reuse, encrypt.nonce-reuse-concurrent (op encpar: g goroutines x per calls under one key, all ciphertexts and nonces distinct) and the structural encrypt.nonce-not-fresh-random (no shared 16-byte prefix / aligned 8-byte word).",
     "lean_props": ["BtcwVerif.Props.C17"],
     "engines": ["crypto"],
     "trusted_base": COMMON_TB + [
@@ -13,7 +13,8 @@ CFG = {
     ],
     "assumptions": [
         "KNOWN DEFECT (unchanged tree): DeriveKey accepts passphrases with the same HMAC-SHA256 key block (trailing NULs); modelled (hmacBlock), counter-example theorem C17_counterexample_trailing_nul, oracle key DeriveKey.trailing-NUL-passphrase; the exact-passphrase clause is proved as _partial",
-        "crypto/rand nonces are fresh (the model takes nonces/salts/keys as explicit parameters; the Go oracle checks freshness on every real encryption)",
+        "crypto/rand nonces are fresh (the model takes nonces/salts/keys as explicit parameters; the Go oracles check every real nonce: no repeat within a run, none among the g*per concurrent calls of op encpar, and structurally no two nonces sharing their first 16 bytes or an aligned 8-byte word - 24 fresh random bytes do so with probability < N^2 * 2^-63)",
+        "op encpar: the driver computes Crypto.encryptMany over the toy nonces st.nonce..st.nonce+total-1 and COUNTS the distinct results; bounds shared by both sides: 1 <= g <= 64, 1 <= per <= 100000, g*per <= 10^6, len <= 4096; the race of a broken nonce generator is scheduler dependent, the structural oracle is not",
         "Go int is 64 bit (Parameters.N/R/P modelled as Int within [-2^63, 2^63))",
         "Manager model covers the key hierarchy only (master keys, crypto keys, lock state); account/address key caches are C05",
     ],
